@@ -121,14 +121,6 @@ impl State {
         self.workers.iter().all(|w| *w == Wk::Exited)
     }
 
-    /// The item a `recv` would obtain now (FIFO: buffer head, else the pending send).
-    fn available(&self) -> Option<usize> {
-        self.chan.front().copied().or(match self.prod {
-            Prod::Sending(i) => Some(i),
-            _ => None,
-        })
-    }
-
     /// Applies an event; None if it is not enabled in this state.
     pub fn apply(&self, ev: Ev) -> Option<State> {
         let mut s = self.clone();
@@ -175,11 +167,23 @@ impl State {
                 s.prod = Prod::Dropped;
             }
             Ev::Recv(w, i) => {
-                if w >= s.workers.len() || s.workers[w] != Wk::Idle || s.available() != Some(i) {
+                if w >= s.workers.len() || s.workers[w] != Wk::Idle {
                     return None;
                 }
-                if s.chan.front() == Some(&i) {
-                    s.chan.pop_front();
+                // Items are received in FIFO order, but `recv` events are logged after the call returned,
+                // so two workers can log their receptions in the opposite order: an item may be logged
+                // while up to (number of other idle workers) earlier items are still unlogged.
+                let other_idle = s.workers.iter().enumerate().filter(|(j, x)| *j != w && **x == Wk::Idle).count();
+                let pending = match s.prod {
+                    Prod::Sending(p) => Some(p),
+                    _ => None,
+                };
+                let pos = s.chan.iter().position(|&x| x == i).or(if pending == Some(i) { Some(s.chan.len()) } else { None })?;
+                if pos > other_idle {
+                    return None;
+                }
+                if pos < s.chan.len() {
+                    s.chan.remove(pos);
                 } else {
                     // direct hand-over of the pending send
                     s.next = i + 1;
@@ -188,7 +192,13 @@ impl State {
                 s.workers[w] = Wk::Got(i);
             }
             Ev::RecvDisc(w) => {
-                if w >= s.workers.len() || s.workers[w] != Wk::Idle || s.prod != Prod::Dropped || !s.chan.is_empty() {
+                if w >= s.workers.len() || s.workers[w] != Wk::Idle || s.prod != Prod::Dropped {
+                    return None;
+                }
+                // items still in the model's channel may have been taken by other idle workers that have
+                // not logged their `recv` yet
+                let other_idle = s.workers.iter().enumerate().filter(|(j, x)| *j != w && **x == Wk::Idle).count();
+                if s.chan.len() > other_idle {
                     return None;
                 }
                 s.workers[w] = Wk::Exited;
@@ -284,7 +294,10 @@ impl State {
         }
         for w in 0..self.workers.len() {
             cand.push(Ev::RecvDisc(w));
-            if let Some(i) = self.available() {
+            for &i in self.chan.iter() {
+                cand.push(Ev::Recv(w, i));
+            }
+            if let Prod::Sending(i) = self.prod {
                 cand.push(Ev::Recv(w, i));
             }
             match self.workers[w] {
